@@ -250,11 +250,11 @@ pub fn check(ctx: &Ctx, nodes: &[Node], shape: &str) {
     let mut blank: HashSet<usize> = r.unselected.iter().map(|(_, l)| *l).collect();
     blank.extend(r.cond_lines.iter().map(|(_, l)| *l));
     let deleted = blank_lines(&src, &blank);
-    verif::enable(verif::LINE);
+    fw::hook_enable(verif::LINE);
     let _ = verif::take();
     let full = fw::build_str(&src);
     let events = verif::take();
-    verif::enable(0);
+    fw::hook_enable(0);
     let del = fw::build_str(&deleted);
     let replay = |d: Value| json!({"source": src, "deleted": deleted, "shape": shape, "detail": d, "observed": full.brief(), "observed_deleted": del.brief()});
     let sig_shape = shape_sig(nodes);
@@ -310,6 +310,47 @@ pub fn check(ctx: &Ctx, nodes: &[Node], shape: &str) {
         if seen.contains(l) {
             ctx.violation(format!("cond/{}/trace/unselected-line-assembled", sig_shape), format!("line {} of an unselected branch reached the assembling path: `{}`", l, src.lines().nth(l - 1).unwrap_or("")), replay(json!({"line": l})));
             break;
+        }
+    }
+    // the same program with (unreferenced, unique) labels in front of its conditional directives:
+    // `name: .if`, `name: .else`, `name: .endif` are directive lines like any other, selected or not
+    if full.is_ok() {
+        let mut in_macro = false;
+        let mut labelled = String::new();
+        let mut n_labelled = 0u64;
+        let cond: HashSet<usize> = r.cond_lines.iter().map(|(_, l)| *l).collect();
+        for (i, l) in src.lines().enumerate() {
+            let t = l.trim_start().to_ascii_lowercase();
+            if t.starts_with(".macro") {
+                in_macro = true;
+            }
+            let is_cond = [".if", ".elif", ".else", ".endif", "#if", "#elif", "#else", "#endif"].iter().any(|d| t.starts_with(d));
+            let _ = &cond;
+            if !in_macro && is_cond && (i + fw::hash_str(&src) as usize) % 3 != 0 {
+                labelled.push_str(&format!("c08_at_line_{}: ", i + 1));
+                n_labelled += 1;
+            }
+            if t.starts_with(".endm") {
+                in_macro = false;
+            }
+            labelled.push_str(l);
+            labelled.push('\n');
+        }
+        if n_labelled > 0 {
+            let lab = fw::build_str(&labelled);
+            ctx.eval(1);
+            ctx.count("conditional_lines_given_a_label", n_labelled);
+            let same = match (&full, &lab) {
+                (Outcome::Ok(a), Outcome::Ok(b)) => a.code == b.code && a.eeprom == b.eeprom && a.messages == b.messages && a.ram_filling == b.ram_filling,
+                _ => false,
+            };
+            if !same {
+                ctx.violation(
+                    format!("cond/{}/labelled-directive-lines", sig_shape),
+                    format!("with labels in front of its conditional directives the program no longer builds to the same result: {:?}", lab.brief()),
+                    json!({"source": labelled, "deleted": deleted, "shape": shape, "detail": "labelled", "observed": lab.brief(), "observed_deleted": del.brief()}),
+                );
+            }
         }
     }
     ctx.count("selected_lines_traced", r.selected.len() as u64);
